@@ -320,7 +320,7 @@ var c01anchors struct {
 
 func checkLinkerAgreement(c *Ctx) {
 	w := c.W
-	c.Rule("R01.4", "the linker patches and garble agree on variables, formula and anchors", 8)
+	c.Rule("R01.4", "the linker patches and garble agree on variables, formula and anchors", 6)
 	patches, _ := filepath.Glob(filepath.Join(w.Repo, "internal", "linker", "patches", "*", "*.patch"))
 	var text []byte
 	for _, p := range patches {
